@@ -94,7 +94,11 @@ def run(ctx):
             ctx.count("fixedN")
             if model != promised:
                 ctx.disagree("sectors:fixedN-model-vs-promise", f"model {model} promised {promised}", desc)
-            if got != promised and not (promised == [] and isinstance(got, str)):
+            if promised == [] and not isinstance(got, str):
+                ctx.disagree("sectors:fixedN-impossible-not-rejected",
+                             f"no sector with {nele} electrons exists in {norb} orbitals, yet the constructor returned a "
+                             f"wavefunction with sectors {got} and norb {w.norb()} instead of raising", desc)
+            elif got != promised and not (promised == [] and isinstance(got, str)):
                 ctx.disagree("sectors:fixedN", f"sectors {got} promised {promised}", desc)
             elif not isinstance(got, str):
                 for (n, s) in got:
@@ -115,7 +119,11 @@ def run(ctx):
             ctx.count("fixedSz")
             if model != promised:
                 ctx.disagree("sectors:fixedSz-model-vs-promise", f"model {model} promised {promised}", desc)
-            if got != promised and not (promised == [] and isinstance(got, str)):
+            if promised == [] and not isinstance(got, str):
+                ctx.disagree("sectors:fixedSz-impossible-not-rejected",
+                             f"no sector with s_z = {sz} exists in {norb} orbitals, yet the constructor returned a "
+                             f"wavefunction with sectors {got} instead of raising", desc)
+            elif got != promised and not (promised == [] and isinstance(got, str)):
                 ctx.disagree("sectors:fixedSz", f"sectors {got} promised {promised}", desc)
 
     # ---- B. operator values -------------------------------------------------------------------
